@@ -126,7 +126,7 @@ def lang_world(quick):
     else:
         styles += [{"ws": "tight", "paren": 1, "lit": "raw", "sel": "ptr", "cont": True, "dneg": 0}, {"ws": "wide", "paren": 0, "lit": "bare", "sel": "br", "cont": True, "dneg": 2},
                    {"ws": "tight", "paren": 2, "lit": "dq", "sel": "bt", "cont": False, "dneg": 0}]
-    g = json.load(open(os.path.join(vlib.SPEC, "grammar_frozen.json")))
+    g = pegrun.load_grammar()
     return {"grammar": g, "atoms": atoms, "colls": colls, "maxn": 3, "parenbudget": 2 if quick else 4, "styles": styles, "lits": lit_table(vals), "parts": part_table(parts)}
 
 
